@@ -160,6 +160,39 @@ pub fn rxset_one_member_eintr() {
     one_member(true)
 }
 
+#[cfg(kani)]
+pub fn io_raw_os_error_stub(_e: &std::io::Error) -> Option<i32> {
+    Some(env::errno())
+}
+/// C11/C06: registration with the poller is refused (ENOSPC): `add` fails, and the receiver it was given — which
+/// it consumed — must not stay open behind the caller's back; the set keeps working.
+#[cfg_attr(kani, kani::proof)]
+#[cfg_attr(kani, kani::unwind(14))]
+#[cfg_attr(kani, kani::stub(alloc::fmt::format, crate::util::fmt_stub))]
+#[cfg_attr(kani, kani::stub(std::io::Error::kind, crate::h_set::io_kind_stub))]
+#[cfg_attr(kani, kani::stub(std::io::Error::raw_os_error, crate::h_set::io_raw_os_error_stub))]
+pub fn rxset_add_refused() {
+    setup(64);
+    env::set_block_is_violation(true);
+    let (s1, r1) = raw_pair();
+    let (s2, r2) = raw_pair();
+    let mut set = OsIpcReceiverSet::new().unwrap();
+    let id1 = set.add(rx_from_fd(r1)).unwrap();
+    env::set_epoll_add_fails_once(true);
+    let r = set.add(rx_from_fd(r2));
+    assert!(r.is_err(), "a refused registration must be reported");
+    core::mem::forget(r);
+    assert!(!env::is_open(r2), "C11: add() failed but kept the receiver's descriptor open (nobody owns it any more)");
+    let v: u8 = kani::any();
+    assert!(inject(s1, Some(1), &[v], &[]) > 0);
+    let mut g = Got::new();
+    collect(&mut set, 1, &mut g);
+    assert!(g.nd == 1 && g.d[0] == (id1, v, 1), "C06: the set keeps serving its members after a refused add");
+    raw_close(s1);
+    raw_close(s2);
+    set_end(set, 2);
+}
+
 /// The set is deliberately NOT dropped (see rxset_two_members); `left` = the epoll descriptor + members still in it.
 fn set_end(set: OsIpcReceiverSet, left: usize) {
     core::mem::forget(set);
@@ -500,6 +533,9 @@ harnesses! {
 pub fn lookup2(name: &str) -> Option<fn()> {
     if name == "rxset_two_members" {
         return Some(rxset_two_members as fn());
+    }
+    if name == "rxset_add_refused" {
+        return Some(rxset_add_refused as fn());
     }
     if name == "rxset_backlog_65" {
         return Some(rxset_backlog_65 as fn());
